@@ -21,6 +21,18 @@
  * instantiation); after every write the guard words and all 6 words equal the
  * reference, and a read of the same range returns the value written.
  *
+ * Which bit of a word a stream bit is kept in is what the header documents,
+ * not what the property states (it speaks of read-back at the same offset and
+ * width, of "no bit outside that range" and of the words overlapping the
+ * range).  The word model above is therefore used only while the library
+ * under test stores bits in the documented order, which a probe of each
+ * instantiation decides once per process (layout_documented()).  Otherwise
+ * the same cases are judged through the API alone: words that do not overlap
+ * the range (guards included) are byte-identical before and after; inside the
+ * overlapping words the bits before and after the range, read with
+ * varintBitstreamGet before and after the write, are unchanged; a read of the
+ * range returns the value.
+ *
  * huge offset case (c11_bitstream_huge.h): same record layout, the stream is a
  * sparse mapping of 2^33 + 2^19 bits; offset high byte: bits 0-2 anchor (2^32,
  * 2^33, 2^31, 3*2^31, random word, random word >= 2^32, one of the first 64
@@ -144,6 +156,102 @@ static uint64_t ref_word(const bs *s, unsigned j) {
     return x;
 }
 
+/* ---- does this instantiation keep stream bits in the documented order? ----
+ * 3 bits inside a word and 4 bits across a word boundary, written into zeroed
+ * words, must land MSB-first.  Decided once per word type. */
+static int layout_documented(const c11_ops *o) {
+    static int8_t known[4]; /* 0 unknown, 1 documented, -1 other */
+    const unsigned t = o->W == 64 ? 0 : o->W == 32 ? 1 : o->W == 16 ? 2 : 3;
+    if (known[t] == 0) {
+        const unsigned W = o->W, wb = W / 8;
+        uint64_t store[4] = {0, 0, 0, 0};
+        uint8_t *b = (uint8_t *)store;
+        o->set(b, 1, 3, 5);
+        o->set(b, W - 2, 4, 0xB);
+        const uint64_t w0 = ldw(b, wb), w1 = ldw(b + wb, wb);
+        const uint64_t e0 = ((uint64_t)5 << (W - 4)) | 2, e1 = (uint64_t)3
+                                                                << (W - 2);
+        int rest = 1;
+        for (unsigned j = 2 * wb; j < sizeof(store); j++) {
+            rest &= b[j] == 0;
+        }
+        known[t] = (w0 == e0 && w1 == e1 && rest) ? 1 : -1;
+        char cls[40];
+        snprintf(cls, sizeof(cls), "%s.layout.%s", o->name,
+                 known[t] > 0 ? "documented" : "other");
+        vf_class(cls);
+    }
+    return known[t] > 0;
+}
+
+/* API-level judgement of one write (see the file comment); used when the
+ * stored bit order is not the documented one */
+static int bs_write_api(bs *s, size_t off, unsigned width, uint64_t value) {
+    const unsigned W = s->W, wb = s->wb;
+    const size_t first = off / W, last = (off + width - 1) / W;
+    const size_t ws = first * W, we = (last + 1) * W;
+    const unsigned pre = (unsigned)(off - ws);
+    const unsigned suf = (unsigned)(we - (off + width));
+    char site[24];
+    uint8_t before[(GW + NW) * 8];
+    memcpy(before, s->alloc, (size_t)(GW + NW) * wb);
+    const uint64_t pre0 = pre ? s->o->get(s->stream, ws, pre) : 0;
+    const uint64_t suf0 = suf ? s->o->get(s->stream, off + width, suf) : 0;
+    {
+        char cls[32];
+        snprintf(cls, sizeof(cls), "%s.api.%s", s->o->name,
+                 first != last ? "cross" : width == W ? "fullword" : "single");
+        vf_class(cls);
+    }
+    vf_nontrivial(vf_mix(vf_mix(vf_mix(vf_mix(W, off), width), value), 0xA91));
+    s->o->set(s->stream, off, width, value);
+    snprintf(site, sizeof(site), "%s.set", s->o->name);
+    if (vf_exact_check(s->alloc)) {
+        return vf_fail(s->rep, site, "canary",
+                       "%s stream of %d words: write of %u bits at bit %zu "
+                       "damaged the guard after the last word",
+                       s->o->name, NW, width, off);
+    }
+    for (unsigned j = 0; j < GW + NW; j++) {
+        if (j >= GW + first && j <= GW + last) {
+            continue;
+        }
+        const uint64_t g = ldw(s->alloc + (size_t)j * wb, wb);
+        const uint64_t e = ldw(before + (size_t)j * wb, wb);
+        if (g != e) {
+            return vf_fail(s->rep, site, j < GW ? "guard" : "isolation",
+                           "%s stream: write of %u bits (0x%llx) at bit %zu "
+                           "(words %zu..%zu) changed word %d, which does not "
+                           "overlap the range (0x%llx -> 0x%llx)",
+                           s->o->name, width, U(value), off, first, last,
+                           (int)j - GW, U(e), U(g));
+        }
+    }
+    const uint64_t got = s->o->get(s->stream, off, width);
+    if (got != value) {
+        snprintf(site, sizeof(site), "%s.get", s->o->name);
+        return vf_fail(s->rep, site, "readback",
+                       "%s stream: wrote %u bits 0x%llx at bit %zu, Get of the "
+                       "same range returned 0x%llx",
+                       s->o->name, width, U(value), off, U(got));
+    }
+    const uint64_t pre1 = pre ? s->o->get(s->stream, ws, pre) : 0;
+    const uint64_t suf1 = suf ? s->o->get(s->stream, off + width, suf) : 0;
+    if (pre1 != pre0 || suf1 != suf0) {
+        return vf_fail(s->rep, site, "isolation",
+                       "%s stream: write of %u bits (0x%llx) at bit %zu changed "
+                       "the %s it in the same word: %u bits at bit %zu read "
+                       "0x%llx before and 0x%llx after",
+                       s->o->name, width, U(value), off,
+                       pre1 != pre0 ? "bits before" : "bits after",
+                       pre1 != pre0 ? pre : suf,
+                       pre1 != pre0 ? ws : off + width,
+                       U(pre1 != pre0 ? pre0 : suf0),
+                       U(pre1 != pre0 ? pre1 : suf1));
+    }
+    return 0;
+}
+
 /* whole stream + guards against the reference.  [off, off+width) is the range
  * just written (for the wording of the report) */
 static int bs_check(bs *s, size_t off, unsigned width, uint64_t value) {
@@ -195,6 +303,9 @@ static int bs_check(bs *s, size_t off, unsigned width, uint64_t value) {
 /* one write followed by all checks; returns non-zero on violation */
 static int bs_write(bs *s, size_t off, unsigned width, uint64_t value) {
     const unsigned W = s->W;
+    if (!layout_documented(s->o)) {
+        return bs_write_api(s, off, width, value);
+    }
     const int cross = off / W != (off + width - 1) / W;
     const unsigned before =
         off > 0 ? s->ref[off - 1] : (unsigned)(s->guard[GW - 1] & 1);
